@@ -218,6 +218,9 @@ pub enum Unsupported {
 	SubjectKeyId,
 	/// a subjectAltName entry of a form rcgen's `SanType` cannot hold (see `odd_general_name`)
 	OddSanEntry(u8),
+	/// NOT unsupported as such: the requested names are spread over two subjectAltName extensions in
+	/// the same extension request. Refusing is fine; accepting must carry over all of them.
+	SplitSan,
 }
 
 /// GeneralName forms outside `SanType`: otherName values that are not UTF8Strings (under well-known
@@ -294,6 +297,7 @@ fn foreign_csr() -> BoxedStrategy<ForeignCsr> {
 			1 => Just(vec![Unsupported::UnknownEku]),
 			1 => Just(vec![Unsupported::SubjectKeyId]),
 			2 => (0u8..10).prop_map(|k| vec![Unsupported::OddSanEntry(k)]),
+			1 => Just(vec![Unsupported::SplitSan]),
 		],
 		prop::option::weighted(0.3, "[a-zA-Z0-9]{1,10}"),
 		prop::bool::weighted(0.05),
@@ -380,6 +384,15 @@ pub fn forge_foreign(f: &ForeignCsr) -> Result<Vec<u8>, String> {
 				exts.push(forge::enc_ext(x509::OID_EKU, false, &der::enc_seq(&list)));
 			},
 			Unsupported::SubjectKeyId => exts.push(forge::enc_ext(x509::OID_SKI, false, &der::enc_tlv(0x04, &[1, 2, 3, 4]))),
+			Unsupported::SplitSan => {
+				if spec.sans.len() >= 2 {
+					exts.retain(|e| !e.windows(5).any(|w| w == [0x06, 0x03, 0x55, 0x1d, 0x11]));
+					let names: Vec<Vec<u8>> = spec.sans.iter().map(forge::enc_general_name_san).collect();
+					let cut = names.len() / 2;
+					exts.insert(0, forge::enc_ext(x509::OID_SAN, true, &der::enc_seq(&names[..cut])));
+					exts.push(forge::enc_ext(x509::OID_SAN, true, &der::enc_seq(&names[cut..])));
+				}
+			},
 			Unsupported::OddSanEntry(kind) => {
 				// the request's alternative names plus one entry of a form rcgen cannot carry over
 				exts.retain(|e| !e.windows(5).any(|w| w == [0x06, 0x03, 0x55, 0x1d, 0x11]));
@@ -437,7 +450,7 @@ pub fn check_foreign(f: &ForeignCsr, info: &mut CaseInfo) -> Result<(), String> 
 	};
 	let pairing = if f.key.alg == KeyAlg::Ed25519 || natural == f.digest { "natural" } else { "cross" };
 	info.class(format!("pairing:{pairing}:{:?}+{:?}", f.key.alg, if f.key.alg == KeyAlg::Ed25519 { None } else { Some(f.digest) }));
-	let must_refuse = !f.unsupported.is_empty() || f.subject.has_repeated_type() || !f.subject.is_flat() || f.odd_string_subject;
+	let must_refuse = f.unsupported.iter().any(|u| !matches!(u, Unsupported::SplitSan)) || f.subject.has_repeated_type() || !f.subject.is_flat() || f.odd_string_subject;
 	if must_refuse {
 		info.class(format!("must-refuse:{}", if !f.unsupported.is_empty() { format!("{:?}", f.unsupported[0]) } else { "subject".into() }));
 	}
